@@ -366,7 +366,8 @@ def rule_any_all(ctx, F):
             if truth is None:
                 return m
             txt, t = cond_text(fn, cond, truth)
-            if ("is_positive_match == " in txt and t) or ("is_positive_match != " in txt and not t):
+            both = "is_positive_match" in txt and "is_positive)" in txt.replace("is_positive_match", "") + ")"
+            if both and ((" == " in txt and t) or (" != " in txt and not t)):
                 return (m[0], True)
             if "match_all_nodes" in txt and t:
                 return (m[0], True)
